@@ -475,3 +475,36 @@ pub fn loop_value_programs() -> Vec<(String, String)> {
     }
     out
 }
+
+/// arrays (and tuples / structs holding them) produced along every provenance path from pieces of different element types,
+/// then put through run-time type tests whose bodies use the elements at the tested type: whatever tag an
+/// implementation stores with an array, a test that passes must be true of the contents
+pub fn provenance_type_test_programs() -> Vec<String> {
+    let pieces: [(&str, &str); 10] = [
+        ("[1]", "[2.5]"), ("[2.5]", "[1]"), ("[1]", "[\"a\"]"), ("[1, 2]", "[]"), ("[]", "[2.5]"), ("[1]", "[1, 2.5][1:]"), ("[1, 2.5][:1]", "[3]"),
+        ("[[1]]", "[[2.5]]"), ("[(1, 2)]", "[(1, \"a\")]"), ("[struct{x := 1, y := 2}]", "[struct{x := 2.5}]"),
+    ];
+    let builds = [
+        "A + B", "B + A", "(A + B)[0:1]", "(A + B)[1:]", "(A + B)~ $]", "(A + B)~ ? (v: any) -> bool { return true } $]", "((A + B)~ \\ (v: any) -> bool { return true }).0",
+        "((A + B)~ \\ (v: any) -> bool { return false }).1", "[A, B][0] + []", "[] + [A, B][1]", "*(mut (A + B))", "(A + B) + (A + B)[0:0]", "[(A + B)[0]; 2]", "(A + B)~ @ (v: any) -> any { return v } $]",
+        "(A + B)[::-1]", "if hb(true) { A } else { B }", "[A, B][hi(0)]", "((x: any) -> any { return x })(A + B)",
+    ];
+    let tests = [
+        "if x: [int] = a { x~ $+ } else { 0 }", "if x: [float] = a { x~ $+ } else { 0.0 }", "if x: [string] = a { x~ $+ } else { \"\" }", "if x: [int] = a { x[0] + 1 } else { 0 }",
+        "match a { x: [int] => x~ $*, y: [float] => 1, z: any => 2, }", "([a]~ ? [int] $])~ @ (v: [int]) -> int { return v~ $+ } $]", "([a]~ ? [float] $])~ @ (v: [float]) -> float { return v~ $+ } $]",
+        "if x: [int|float] = a { x~ @ (v: int|float) -> int { return 1 } $+ } else { 0 }", "if x: [[int]] = a { x[0]~ $+ } else { 0 }", "if x: [(int, int)] = a { x[0].1 + 1 } else { 0 }",
+        "if x: [struct{x: int, y: int}] = a { x[0].y + 1 } else { 0 }", "if x: [struct{x: int}] = a { x[0].x + 1 } else { 0 }", "while x: [int] = a { r := x~ $+; break }",
+        "c := mut [int] []; if x: [int] = a { c += x; }; *c~ $+", "t := (a, 1); if x: ([int], int) = t { x.0~ $+ } else { 0 }", "s := struct{f := a}; if x: struct{f: [int]} = s { x.f~ $+ } else { 0 }",
+    ];
+    let mut out = Vec::new();
+    for (pa, pb) in pieces {
+        for b in builds {
+            let build = b.replace('A', pa).replace('B', pb);
+            for t in tests {
+                out.push(format!("hb := (v: bool) -> bool {{ return v }}; hi := (v: int) -> int {{ return v }}; a := {build}; {t}"));
+                out.push(format!("hb := (v: bool) -> bool {{ return v }}; hi := (v: int) -> int {{ return v }}; f := (a: any) -> any {{ {t} }}; f({build})"));
+            }
+        }
+    }
+    out
+}
